@@ -52,7 +52,7 @@ COMPONENTS = {
     "stub": ["objective/gradient actors (switch objective at the rewrite)", "update actor (fault injector)", "callback actor + durable store"],
 }
 ASSUMPTIONS = ["rewrites other than identity are exercised without a gradient scaler"]
-PLAN_TIMEOUT = 240
+PLAN_TIMEOUT = 600
 
 
 def gen(rng, tier, index):
